@@ -5,7 +5,7 @@ import json, subprocess, os
 ALL = ["C%02d" % i for i in range(1, 25)]
 
 CHECKS = {
- "C01": dict(level="exploration", technique="panic/abort/exit-status monitor + logical token budget around the real scanner/parser/compiler; bounded-exhaustive short texts enumerated in-process, fuzzed texts, real-binary confirmation",
+ "C01": dict(level="exploration", technique="panic/abort/exit-status monitor + logical token budget around the real scanner/parser/compiler; bounded-exhaustive short texts enumerated in-process, fuzzed texts, real-binary confirmation; thorough tier (and quick tier when `unsafe` appears in /repo/src): the same corpus under an AddressSanitizer build of the probe and a 48-case Miri slice",
              text="Every text of the enumerated sub-spaces (all strings over a 32-character alphabet up to length 3/4, all sequences over a 70-token vocabulary up to length 3/4) and 4e4-7e5 fuzzed texts were pushed through the real front end under a panic monitor and a progress budget; held on everything observed. Exploration, not proof: texts outside the enumerated spaces are only sampled.",
              note="Trusted: the probe's catch_unwind/panic hook, the worker exit status, the token-budget hook (guarded) and the real binary's exit status for confirmation. Non-termination is restated as bounded progress (20 s for texts <= 4000 chars).",
              design="6/C01"),
@@ -37,9 +37,9 @@ CHECKS = {
              text="4e3-1.5e5 random programs over the whole construct list, targeted evaluation-order programs (side-effecting probes in every operand, argument, element and key position, < <= and assignment included) and one-fault ill-formed variants; held on everything observed. Programs whose evaluation reaches an unspecified corner are discarded and counted.",
              note="Trusted: gen.py's definitional evaluator (scopes, capture by value, operator model of C09, truthiness of C06) and the generator's static well-formedness check.",
              design="6/C02"),
- "C08": dict(level="exploration", technique="crash monitor: panic hook + catch_unwind + worker exit status in-process, exit status / stderr of the real binary (dev and release); every in-process hit is confirmed on the real binary",
-             text="Every builtin x arity 0..4 x ~110 argument values of every kind (boundary numbers, malformed format strings, live file/pcap/packet handles), builtin chains, recursion-depth ladders around the frame and stack limits, many locals/globals/arguments, ill-typed generated programs, exit statuses and 40 filter programs end to end in both profiles; held on everything observed.",
-             note="Exclusions of the property are honoured (no allocation beyond the machine, no self-containing containers). sleep with huge/negative arguments is not judged.",
+ "C08": dict(level="exploration", technique="crash monitor: panic hook + catch_unwind + worker exit status in-process, exit status / stderr of the real binary (dev and release); every in-process hit is confirmed on the real binary; thorough tier (and quick tier when `unsafe` appears in /repo/src): the same corpus under an AddressSanitizer build of the probe and a 48-case Miri slice",
+             text="Every builtin x arity 0..4 x ~110 argument values of every kind (boundary numbers, malformed format strings, live file/pcap/packet handles), builtin chains, recursion-depth ladders around the frame and stack limits, many locals/globals/arguments, ill-typed generated programs, every layer of random frames and of all their truncations read and written back, 34 non-printing operations on self-containing containers, exit statuses and 40 filter programs end to end in both profiles; held on everything observed except the open finding KF-C08-1 (== / hashing of two distinct self-containing containers).",
+             note="Exclusions of the property are honoured: a failed request larger than the installed memory / capacity overflow and printing of self-containing containers are counted, not judged. sleep with huge/negative arguments is not judged. ASan leak detection is off (reference cycles built by programs leak by design).",
              design="6/C08"),
  "C04": dict(level="exploration", technique="differential monitor against a lexically scoped definitional evaluator, with a generator concentrated on binding structure (shadowing, sibling blocks, dead names, closures in blocks/loops, captured writes)",
              text="3e3-1.2e5 random programs with shadowing at every depth, re-used names in sibling blocks, closures created in blocks and loops and called after their frame is gone, writes to captured variables and globals; uses of names whose block has ended must be compile errors; plus 21 hand-written binding scenarios. Held on everything observed.",
